@@ -103,6 +103,10 @@ def composite_codec_get_coded_const_prefix(codec: CompositeCodec,
     encode_state = EncodeState(coded_message=bytearray(), triggering_request=request_prefix)
 
     for param in codec.parameters:
+        # only the last parameter is located at the end of the PDU
+        # (this e.g. determines if termination sequences are present)
+        encode_state.is_end_of_pdu = param is codec.parameters[-1]
+
         if (isinstance(param, MatchingRequestParameter) and param.request_byte_position + param.byte_length <= len(request_prefix)) or \
             isinstance(param, (CodedConstParameter, PhysicalConstantParameter)):
             param.encode_into_pdu(physical_value=None, encode_state=encode_state)
